@@ -28,8 +28,14 @@ def d1(ctx, prog):
     pm = astutil.parents(setter.node)
     raising_ifs = [n for n in ast.walk(setter.node) if isinstance(n, ast.If) and any(isinstance(b, ast.Raise) for b in n.body)]
     # uniformity: tests mentioning diff
+    def order_test(t):
+        # a first-order difference compared with zero decides the *order* of the edges, not their spacing
+        return any(isinstance(c, ast.Compare) and len(c.ops) == 1 and const_value(c.comparators[0]) == 0 and isinstance(c.left, (ast.Call, ast.Name))
+                   and (isinstance(c.left, ast.Name) or norm(c.left.func).split('.')[-1] in ('diff', 'ediff1d'))
+                   and not any(isinstance(x, ast.Call) and x is not c.left and norm(x.func).split('.')[-1] in ('diff', 'ediff1d', 'abs', 'absolute') for x in ast.walk(c.left))
+                   for c in ast.walk(t))
     uni = [n for n in raising_ifs if any(isinstance(c, ast.Call) and norm(c.func).split('.')[-1] in ('diff', 'ediff1d', 'allclose', 'ptp')
-                                         for c in ast.walk(n.test))]
+                                         for c in ast.walk(n.test)) and not order_test(n.test)]
     key = f'{setter.key}::uniformity test'
     if not uni:
         ctx.fail('C13-D1', key, 'the setter has no test refusing non-uniform bin edges (the kernel assumes a constant width)', setter.where())
@@ -104,6 +110,56 @@ def d1(ctx, prog):
                 strict = (n, refuses_equal)
     key = f'{setter.key}::increasing test'
     if strict is None:
+        # vectorised forms: any(E[1:] <= E[:-1]) / not all(E[1:] > E[:-1])  (element comparison: right for every dtype), or the same
+        # on np.diff(E) against 0 - which wraps for unsigned integer edge arrays unless E was converted to a float / signed type first
+        ldefs = astutil.local_defs(setter.node)
+        pname = setter.params[1] if len(setter.params) > 1 else None
+        for n in raising_ifs:
+            t = astutil.expand_locals(n.test, ldefs)
+            neg = False
+            while isinstance(t, ast.UnaryOp) and isinstance(t.op, ast.Not):
+                neg, t = not neg, t.operand
+            red = arg = None
+            if isinstance(t, ast.Call) and isinstance(t.func, ast.Attribute) and t.func.attr in ('any', 'all'):
+                if norm(t.func.value) in ('_np', 'np', 'numpy') and len(t.args) == 1:
+                    red, arg = t.func.attr, t.args[0]
+                elif not t.args:
+                    red, arg = t.func.attr, t.func.value
+            if red is None or not (isinstance(arg, ast.Compare) and len(arg.ops) == 1):
+                continue
+            l, r, op = arg.left, arg.comparators[0], type(arg.ops[0])
+            is_diff = isinstance(l, ast.Call) and norm(l.func).split('.')[-1] in ('diff', 'ediff1d') and len(l.args) == 1 and const_value(r) == 0
+            upper = lambda e: isinstance(e, ast.Subscript) and isinstance(e.slice, ast.Slice) and const_value(e.slice.lower) == 1 and e.slice.upper is None      # noqa: E731
+            lower = lambda e: isinstance(e, ast.Subscript) and isinstance(e.slice, ast.Slice) and e.slice.lower is None and const_value(e.slice.upper) == -1    # noqa: E731
+            pair = None
+            if is_diff:
+                pair = 'diff'
+            elif upper(l) and lower(r) and norm(l.value) == norm(r.value):
+                pair = 'elements'
+            elif lower(l) and upper(r) and norm(l.value) == norm(r.value):
+                pair, op = 'elements', {ast.Lt: ast.Gt, ast.LtE: ast.GtE, ast.Gt: ast.Lt, ast.GtE: ast.LtE}.get(op, op)
+            if pair is None:
+                continue
+            # refuses equal-or-decreasing: any(next <= prev) / not all(next > prev)
+            refuses_equal = (red == 'any' and not neg and op is ast.LtE) or (red == 'all' and neg and op is ast.Gt)
+            accepts_equal = (red == 'any' and not neg and op is ast.Lt) or (red == 'all' and neg and op is ast.GtE)
+            if not (refuses_equal or accepts_equal):
+                continue
+            if pair == 'diff':
+                casts = [st_ for st_ in setter.node.body if isinstance(st_, ast.Assign) and len(st_.targets) == 1 and norm(st_.targets[0]) == pname and isinstance(st_.value, ast.Call)
+                         and norm(st_.value.func).split('.')[-1] in ('array', 'asarray', 'astype', 'asfarray')
+                         and any(k_.arg == 'dtype' and ('float' in norm(k_.value) or norm(k_.value).strip('\'"') in ('int64', 'f8', 'd')) for k_ in st_.value.keywords)
+                         and st_.lineno < n.lineno]
+                if not casts:
+                    ctx.fail('C13-D1', key, f'`{norm(n.test)[:70]}` decides the order of the edges from np.diff: for an unsigned integer edge array the differences wrap around, so a '
+                             f'decreasing (or overflowed) edge list passes as increasing (the edges are converted to float64 only when they are not already an ndarray)', setter.where(n))
+                    strict = 'reported'
+                    break
+            strict = (n, refuses_equal)
+            break
+    if strict == 'reported':
+        pass
+    elif strict is None:
         ctx.undecided('C13-D1', key, 'test that consecutive edges increase not recognised', setter.where())
     else:
         ctx.check(strict[1], 'C13-D1', key, f'`{norm(strict[0].test)}` accepts equal consecutive edges (a zero-width bin)',
@@ -318,6 +374,33 @@ def d5(ctx, prog, ci):
         ctx.undecided('C13-D5', key, f'how the batch reaches the kernel is not understood: {why}', acc.where(calls[0]))
 
 
+WIDE = ('float64', 'float', 'double', 'f8', 'd', 'int64', 'uint64', 'longdouble', 'float128')
+
+
+def d6(ctx, prog, ci):
+    """the marginals are sums of histogram cells: numpy sums integer arrays in 64 bits by default; a `dtype=` on a reduction of the
+    counts that is not one of the wide literal types (in particular the configurable accumulator precision, which may be uint8 /
+    uint16) makes the totals wrap while every cell still fits"""
+    n = 0
+    for name in ('_compute', '_compute_pdf'):
+        f = prog.resolve_method(ci, name)
+        if f is None or f.mod.name != MIA:
+            continue
+        for c in ast.walk(f.node):
+            if not (isinstance(c, ast.Call) and norm(c.func).split('.')[-1] in ('sum', 'cumsum', 'nansum', 'mean', 'prod', 'add.reduce', 'reduce')):
+                continue
+            n += 1
+            dt = next((k.value for k in c.keywords if k.arg == 'dtype'), None)
+            key = f'{f.key}::{norm(c)[:80]}'
+            if dt is None:
+                ctx.ok('C13-D6', key, 'reduction in numpy\'s default accumulator type (64-bit for integers)', f.where(c))
+                continue
+            txt = norm(dt).strip('\'"').split('.')[-1]
+            ctx.check(txt in WIDE, 'C13-D6', key, f'`{norm(c)[:70]}` forces the reduction into `{norm(dt)}`: with a narrow accumulator precision (uint8 / uint16) the per-bin and per-class totals '
+                      f'wrap around although every histogram cell fits, and the result is no longer H(B) - H(B|V)', f'reduction forced to the wide type {txt}', f.where(c))
+    return n
+
+
 def run(ctx, prog):
     from .. import universe as _uni0
     _uni0.inline_base_entry_points(ctx, prog)
@@ -330,6 +413,8 @@ def run(ctx, prog):
     n = d3(ctx, prog, ci)
     ctx.rule('C13-D5', 'the kernel bins the samples of the batch as given: no narrowing cast between _accumulate and the comparison with the edges')
     d5(ctx, prog, ci)
+    ctx.rule('C13-D6', 'reductions of the histogram counts run in numpy\'s default (64-bit) accumulator or an explicitly wide type, never in the configurable accumulator precision')
+    ctx.floor('count reductions judged (MIA)', d6(ctx, prog, ci), 3)
     ctx.rule('C13-D4', 'axis-label typing of the MIA kernel, _compute_pdf and _compute: every broadcast aligned, (S,B,P,W) reduced to the documented (W,S)')
     from .. import axes
     n4 = axes.check_family(ctx, prog, 'C13-D4', [MIA])
